@@ -114,7 +114,7 @@ def run_one(case):
 
 # ----------------------------------------------------------------------------- wire level
 
-USERS = {"u1": ("/srv/u1", "/"), "u2": ("/srv/u2", "/home"), "u3": ("/srv", "/u3/deep")}
+USERS = {"u1": ("/srv/u1", "/"), "u2": ("/srv/u2", "/home"), "u3": ("/srv", "/u3/deep"), "u4": ("/srv/u4", "/")}
 NAMES = ["a", "b", "f", "home", "deep", "u1", "u2", "u3", "secret"]
 HOSTILE = ["..", "../..", "../../..", "/..", "/../..", "//", "//a", "a/..", "a/../..", "./..", "a/./../../x", "...", "/a/../../srv",
            "../u2/secret", "../../srv/u2/secret", "/../u2/secret", "a\\..\\..", "..\\..", "C:", "/C:/x", "a//..//..", "./", "",
@@ -179,6 +179,23 @@ async def wire_case(net, hyg, plan):
                 await sess.run([["login", cur, "pw"]])
                 cwd = USERS[cur][1]
                 transcript.append(["login", cur])
+                continue
+            if r < 0.12 and transcript and len(transcript[-1]) == 3:
+                # re-login as a user with the same home and repeat the previous argument verbatim
+                same_home = [u for u in sorted(USERS) if u != cur and USERS[u][1] == USERS[cur][1]] or [u for u in sorted(USERS) if u != cur]
+                prev_arg = transcript[-1][1]
+                cur = rng.choice(same_home)
+                await sess.run([["login", cur, "pw"]])
+                cwd = USERS[cur][1]
+                transcript.append(["login", cur])
+                verb = rng.choice(["MLST", "RMD", "MKD", "DELE", "CWD", "RNFR"])
+                await sess.run([["cmd", f"{verb} {prev_arg}"]])
+                if not sess.alive:
+                    break
+                code = sess.outcomes[-1][0] if sess.outcomes[-1] else None
+                transcript.append([verb, prev_arg, sess.outcomes[-1]])
+                if verb == "CWD" and code == "250":
+                    cwd = norm(cwd, prev_arg)
                 continue
 
             def arg():
